@@ -1,6 +1,6 @@
 use insim_core::{
     binrw::{self, binrw},
-    string::{binrw_parse_codepage_string, binrw_write_codepage_string},
+    string::{binrw_parse_codepage_string, binrw_write_codepage_string_terminated},
 };
 
 use crate::identifiers::RequestId;
@@ -43,7 +43,7 @@ pub struct Msl {
     pub sound: SoundType,
 
     /// Message
-    #[bw(write_with = binrw_write_codepage_string::<128, _>)]
+    #[bw(write_with = binrw_write_codepage_string_terminated::<128, _>)]
     #[br(parse_with = binrw_parse_codepage_string::<128, _>)]
     pub msg: String,
 }
